@@ -301,6 +301,19 @@ def _exec_bucket(case, mon):
 # ---- loaders on scratch directories
 
 
+def _scratch_parent():
+    """Scratch directories are removed at the end of every case; should the shard be killed by the
+    watchdog in the middle of one, they live inside the run's own temporary directory (the directory of
+    --out), which the parent process removes.  Otherwise $TMPDIR."""
+    import sys
+
+    if "--out" in sys.argv[:-1]:
+        d = os.path.dirname(os.path.abspath(sys.argv[sys.argv.index("--out") + 1]))
+        if os.path.isdir(d) and os.path.basename(d).startswith("vmon-"):
+            return d
+    return None
+
+
 def _same_obj(a, b):
     import torch
 
@@ -492,7 +505,7 @@ def _exec_loader(case, mon):
     fam = case["family"]
     N = len(case["utts"])
     nb, dyn = case["num_length_buckets"], case["size_batch_by_length"]
-    root = tempfile.mkdtemp(prefix="vmon-c14-")
+    root = tempfile.mkdtemp(prefix="vmon-c14-", dir=_scratch_parent())
     try:
         utts = G.materialise(dict(case, has_ref=case["has_ref"] or fam == "lang"), root)
         lengths = _lengths(case, utts)
